@@ -72,6 +72,9 @@ func judge(plan *pipesim.Plan, res *pipesim.Result) *vkit.Outcome {
 	if res.DQDelivered > 0 {
 		o.Class("dead-queue-delivery")
 	}
+	if res.SpamRefused > 0 {
+		o.Class("refused-by-antispam")
+	}
 	if res.Timeouts > 0 {
 		o.Class("stream-timeout")
 	}
